@@ -408,6 +408,11 @@ impl Drop for AllocPtr {
             }
             let size = self.size();
             ((*self.type_info).drop)(self.value());
+            #[cfg(gluon_verif)]
+            if crate::verif::on_free(self.ptr as usize) {
+                ptr::write_bytes(self.value() as *mut u8, 0xDD, self.value_size);
+                return;
+            }
             ptr::read(&*self.ptr);
             deallocate(self.ptr as *mut u8, size);
         }
@@ -689,6 +694,12 @@ impl<T: ?Sized> GcPtr<T> {
 
     pub fn generation(&self) -> Generation {
         self.header().generation()
+    }
+
+    /// Verification hook: address of the object's header (key of the `verif` side tables).
+    #[cfg(gluon_verif)]
+    pub fn verif_addr(&self) -> usize {
+        self.header() as *const GcHeader as usize
     }
 
     pub fn poly_tag(&self) -> Option<&InternedStr> {
@@ -1244,6 +1255,12 @@ impl Gc {
         );
 
         let mut ptr = AllocPtr::new::<D::Value>(type_info, size);
+        #[cfg(gluon_verif)]
+        crate::verif::on_alloc(
+            ptr.ptr as usize,
+            self as *const Gc as usize,
+            TypeId::of::<D::Value>() == TypeId::of::<crate::thread::Thread>(),
+        );
         ptr.next = self.values.take();
         self.allocated_memory += ptr.size();
         unsafe {
@@ -1264,6 +1281,11 @@ impl Gc {
         R: Trace + CollectScope,
     {
         unsafe {
+            #[cfg(gluon_verif)]
+            if crate::verif::stride_tick() {
+                self.collect(roots);
+                return true;
+            }
             if self.allocated_memory >= self.collect_limit {
                 self.collect(roots);
                 true
@@ -1293,6 +1315,12 @@ impl Gc {
     /// Returns true if the pointer was already marked
     pub fn mark<T: ?Sized>(&mut self, value: &GcPtr<T>) -> bool {
         let header = value.header();
+        #[cfg(gluon_verif)]
+        if let Some(r) =
+            crate::verif::on_mark(header as *const GcHeader as usize, header.generation().0)
+        {
+            return r;
+        }
         // We only need to mark and trace values from this garbage collectors generation
         if header.generation().is_parent_of(self.generation()) || header.marked.get() {
             true
